@@ -29,6 +29,26 @@ pub fn full_image(p: &CooklangParser, src: &str) -> String {
     s
 }
 
+/// the same with parse options: a pure metadata validator (excludes, skips checks, warns) on both entry points
+pub fn full_image_with_options(p: &CooklangParser, src: &str) -> String {
+    let res = p.parse_with_options(src, test_options());
+    let mut s = crate::c02::result_image(&res);
+    let meta = p.parse_metadata_with_options(src, test_options());
+    s.push_str(&format!("{:?}", meta.output().map(|m| serde_json::to_string(m).unwrap_or_default())));
+    for d in meta.report().iter() {
+        s.push_str(&format!("{:?}|{}|{:?}|{:?}", d.severity, d.message, d.labels, d.hints));
+    }
+    s
+}
+
+pub fn image_in_mode(p: &CooklangParser, src: &str, with_options: bool) -> String {
+    if with_options {
+        full_image_with_options(p, src)
+    } else {
+        full_image(p, src)
+    }
+}
+
 #[derive(Debug, Clone, Serialize, Deserialize)]
 pub struct History {
     pub inputs: Vec<Vec<String>>,
@@ -43,29 +63,33 @@ fn check_history(h: &History, st: &mut Stats) -> Verdict {
     }
     let shared = parser(h.ext, h.conv); // also used concurrently by every other worker thread
     let srcs: Vec<String> = h.inputs.iter().map(|p| p.concat()).collect();
-    let mut first: Vec<Option<String>> = vec![None; srcs.len()];
+    // slot 2*i: plain parse of input i, slot 2*i+1: parse with options (a quarter of the calls)
+    let mut first: Vec<Option<String>> = vec![None; srcs.len() * 2];
     let mut repeats = 0;
     for k in &h.order {
         let i = *k as usize % srcs.len();
-        let img = match guard(|| full_image(shared, &srcs[i])) {
+        let with_options = *k >= 192;
+        let slot = i * 2 + with_options as usize;
+        st.class_if(with_options, "call-with-parse-options");
+        let img = match guard(|| image_in_mode(shared, &srcs[i], with_options)) {
             Ok(i) => i,
             Err(_) => {
                 st.exclude("parse panicked (C03's business)");
                 return Ok(());
             }
         };
-        match &first[i] {
+        match &first[slot] {
             None => {
                 // against a fresh parser
                 let fresh = CooklangParser::new(ALL_EXTS[h.ext], converter(h.conv).clone());
-                let f = full_image(&fresh, &srcs[i]);
+                let f = image_in_mode(&fresh, &srcs[i], with_options);
                 vensure!(
                     f == img,
                     "c18.depends-on-history",
                     "the result on a long-lived shared parser differs from the result on a fresh parser\n shared {}\n fresh  {}\n input {:?}\n history {:?}",
                     truncate(&img, 1200), truncate(&f, 1200), srcs[i], h
                 );
-                first[i] = Some(img);
+                first[slot] = Some(img);
             }
             Some(prev) => {
                 repeats += 1;
@@ -314,6 +338,128 @@ fn options_part(run: &mut Run, n: usize) {
     }
 }
 
+/// First use of a fresh parser from several threads at once: anything initialised lazily inside the
+/// parser or its converter is initialised under contention here.
+fn fresh_race_part(run: &mut Run, rounds: usize, threads: usize) {
+    let mut srcs: Vec<String> = vec![
+        "---\ntime: 1 hour 30 min\nservings: 2|4\n---\nMix @a{1%kg} and @b{1 1/2%cups} for ~{5%min}.".to_string(),
+        ">> time: 2 h 5 min\n>> prep time: 10 minutes\n@flour{1 1/2%cups} ~{5%min} bake at 180 ºC".to_string(),
+        ">> cook time: 1 day 2 hours\nAdd 5 g of salt and @&(~1)x{} then @water{250 ml}".to_string(),
+        "---\nduration: 90 seconds\ntags: [a, b]\nauthor: A <https://a.b>\n---\n= S\n@x{1/3%lb} #pan{} @&x{2%oz}".to_string(),
+    ];
+    for c in batch(run.seed ^ 0xf4e5, 24).into_iter().filter(|c| c.ext == EXT_ALL && c.conv == 1).take(4) {
+        srcs.push(c.input());
+    }
+    let image = |p: &CooklangParser, src: &str| -> String {
+        guard(|| {
+            let mut img = full_image(p, src);
+            if let Some(r) = p.parse(src).into_output() {
+                img.push_str(&format!("{:?}", r.metadata.time(p.converter())));
+                let mut s = r.scale(1.5, p.converter());
+                let _ = s.convert(cooklang::convert::System::Imperial, p.converter());
+                img.push_str(&serde_json::to_string(&s).unwrap_or_default());
+            }
+            img
+        })
+        .unwrap_or_else(|e| format!("panic:{e}"))
+    };
+    let warmed = CooklangParser::new(ALL_EXTS[EXT_ALL], BUNDLED.clone());
+    let base: Vec<String> = srcs.iter().map(|s| image(&warmed, s)).collect();
+    let mut st = Stats::default();
+    let mut fail = None;
+    'outer: for r in 0..rounds {
+        // a clone of a used converter, or one built from scratch: both must behave as fresh
+        let fresh = if r % 2 == 0 { CooklangParser::new(ALL_EXTS[EXT_ALL], BUNDLED.clone()) } else { CooklangParser::new(ALL_EXTS[EXT_ALL], cooklang::Converter::bundled()) };
+        let barrier = std::sync::Barrier::new(threads);
+        let i = r % srcs.len();
+        let imgs: Vec<String> = std::thread::scope(|s| {
+            let hs: Vec<_> = (0..threads)
+                .map(|_| {
+                    let (fresh, barrier, src, image) = (&fresh, &barrier, &srcs[i], &image);
+                    s.spawn(move || {
+                        barrier.wait();
+                        image(fresh, src)
+                    })
+                })
+                .collect();
+            hs.into_iter().map(|h| h.join().unwrap()).collect()
+        });
+        for img in &imgs {
+            st.eval();
+            if *img != base[i] {
+                fail = Some((
+                    Violation::new(
+                        "c18.thread-result-differs",
+                        format!("first use of a fresh parser from {threads} threads at once: one thread's result differs from the single-threaded result\n thread   {}\n baseline {}\n input {:?}", truncate(img, 1500), truncate(&base[i], 1500), srcs[i]),
+                    ),
+                    serde_json::json!({"pieces": [srcs[i]], "ext": EXT_ALL, "conv": 1}),
+                ));
+                break 'outer;
+            }
+        }
+        st.nontrivial(&(r, i));
+    }
+    st.sample(|| json!(srcs[0]));
+    run.add_part(
+        "fresh-race",
+        &format!("{rounds} rounds: a parser nobody has used yet (clone of the bundled converter or one built from scratch) is handed to {threads} threads that start parsing the same input (durations with units, fractions, inline quantities, references) at the same moment behind a barrier, then scale and convert; every result must equal the single-threaded one; non-trivial = every round"),
+        st,
+        false,
+    );
+    if let Some((v, case)) = fail {
+        run.fail("fresh-race", v, case);
+    }
+}
+
+/// Calls with and without parse options alternate on one parser, single-threaded (nothing else runs):
+/// plain, with options, plain, with options. Equal calls must give equal results.
+fn options_sequence_part(run: &mut Run, n: usize) {
+    let mut b = batch(run.seed ^ 0x5e9, n);
+    for f in [
+        "---\ntitle: x\nservings: 4\ninternal id: 7\ntime: soon\n---\n@a{1%kg}",
+        ">> servings: 2\n>> tags: a, b\n>> note: x\n@a{}",
+        "---\nab: 1\nabc: 2\n---\n",
+    ] {
+        b.push(InputCase { pieces: vec![f.to_string()], ext: EXT_ALL, conv: 1 });
+    }
+    let mut st = Stats::default();
+    let mut fail = None;
+    for c in &b {
+        let src = c.input();
+        let p = CooklangParser::new(ALL_EXTS[c.ext], converter(c.conv).clone());
+        let Ok(imgs) = guard(|| {
+            let a0 = full_image(&p, &src);
+            let o0 = full_image_with_options(&p, &src);
+            let a1 = full_image(&p, &src);
+            let o1 = full_image_with_options(&p, &src);
+            let other = CooklangParser::new(ALL_EXTS[c.ext], converter(c.conv).clone());
+            let a2 = full_image(&other, &src);
+            (a0, o0, a1, o1, a2)
+        }) else {
+            continue;
+        };
+        st.eval();
+        if src.contains(">>") || src.contains("---") {
+            st.nontrivial(&src);
+        }
+        st.class_if(imgs.0 != imgs.1, "options-change-the-result");
+        let (a0, o0, a1, o1, a2) = imgs;
+        if a0 != a1 || o0 != o1 || a0 != a2 {
+            let (x, y, what) = if a0 != a1 { (a0, a1, "a plain parse before and after a parse with options") } else if o0 != o1 { (o0, o1, "two parses with the same options") } else { (a0, a2, "a plain parse on this parser and on another parser afterwards") };
+            fail = Some((
+                Violation::new("c18.depends-on-history", format!("{what} differ\n first  {}\n second {}\n input {src:?}", truncate(&x, 1200), truncate(&y, 1200))),
+                serde_json::to_value(c).unwrap(),
+            ));
+            break;
+        }
+    }
+    st.sample(|| b[0].describe());
+    run.add_part("options-sequence", "single-threaded: each input of a batch is parsed plain, with options (metadata validator excluding keys), plain, with options on one parser and plain on another parser; equal calls must give equal images; non-trivial = the input has `>>` or a fence", st, false);
+    if let Some((v, case)) = fail {
+        run.fail("options-sequence", v, case);
+    }
+}
+
 fn processes_part(run: &mut Run, n: usize) {
     let mut st = Stats::default();
     let exe = std::env::current_exe().expect("current exe");
@@ -363,7 +509,7 @@ pub fn run(tier: Tier) -> i32 {
         run_prop(
             &mut run,
             "histories",
-            "histories: 1-6 generated inputs parsed 2-16 times in a generated order (repeats and interleavings) on a long-lived parser that all 16 worker threads share; each result image (output JSON, ordered diagnostics with labels and hints, rendered report, metadata-only parse) must equal the image on a fresh parser and the image of the first occurrence; non-trivial = the history repeats an input; distinct = distinct history",
+            "histories: 1-6 generated inputs parsed 2-16 times in a generated order (repeats and interleavings; a quarter of the calls go through parse_with_options / parse_metadata_with_options with a key-excluding metadata validator) on a long-lived parser that all 16 worker threads share; each result image (output JSON, ordered diagnostics with labels and hints, rendered report, metadata-only parse) must equal the image on a fresh parser and the image of the first occurrence; non-trivial = the history repeats an input; distinct = distinct history",
             || {
                 (
                     proptest::collection::vec(prop_oneof![2 => recipe_input_strategy(false), 1 => recipe_input_strategy(true), 1 => lines_strategy()], 1..=6),
@@ -390,6 +536,12 @@ pub fn run(tier: Tier) -> i32 {
         options_part(&mut run, tier.pick(300, 6000) as usize);
     }
     if !run.failed() {
+        options_sequence_part(&mut run, tier.pick(1500, 60000) as usize);
+    }
+    if !run.failed() {
+        fresh_race_part(&mut run, tier.pick(300, 6000) as usize, 8);
+    }
+    if !run.failed() {
         processes_part(&mut run, tier.pick(300, 6000) as usize);
     }
     run.finish()
@@ -399,6 +551,18 @@ pub fn replay(part: &str, j: &serde_json::Value) -> Verdict {
     match part {
         "histories" => check_history(&case_from(j)?, &mut Stats::default()),
         "processes" => Err(Violation::new("c18.process-result-differs", "re-run ./check C18 quick with the recorded VERIF_SEED")),
+        "options-sequence" => {
+            let c: InputCase = case_from(j)?;
+            let src = c.input();
+            let p = CooklangParser::new(ALL_EXTS[c.ext], converter(c.conv).clone());
+            let a0 = full_image(&p, &src);
+            let o0 = full_image_with_options(&p, &src);
+            let a1 = full_image(&p, &src);
+            let o1 = full_image_with_options(&p, &src);
+            let a2 = full_image(&CooklangParser::new(ALL_EXTS[c.ext], converter(c.conv).clone()), &src);
+            vensure!(a0 == a1 && o0 == o1 && a0 == a2, "c18.depends-on-history", "equal calls around a parse with options give different results\n plain {}\n plain again {}\n other parser {}", truncate(&a0, 1000), truncate(&a1, 1000), truncate(&a2, 1000));
+            Ok(())
+        }
         _ => {
             // repeat the single input many times on shared and fresh parsers, from several threads
             let c: InputCase = case_from(j)?;
